@@ -439,3 +439,9 @@ func unaliasDeep(T types.Type) types.Type {
 	}
 	return T
 }
+
+// isModuleType: a named type declared in one of the module's packages.
+func (P *Program) isModuleType(t types.Type) bool {
+	n, ok := types.Unalias(t).(*types.Named)
+	return ok && n.Obj() != nil && P.isModulePkg(n.Obj().Pkg())
+}
